@@ -103,6 +103,7 @@ def _worker_init(seed):
     setup_process(seed)
     import signal
     signal.signal(signal.SIGINT, signal.SIG_IGN)
+    signal.signal(signal.SIGTERM, signal.SIG_DFL)
 
 
 def _call(args):
@@ -127,6 +128,18 @@ def digest(obj):
 
 class HarnessError(Exception):
     pass
+
+
+class Interrupted(Exception):
+    """The run was asked to stop (SIGTERM, or VERIF_BUDGET_S seconds used):
+    what has been covered so far is reported, the run is not called exhaustive."""
+
+
+_STOP = {"flag": False, "deadline": None}
+
+
+def _on_sigterm(signum, frame):
+    _STOP["flag"] = True
 
 
 class _NoDaemonProcess(multiprocessing.get_context("fork").Process):
@@ -224,6 +237,9 @@ class Ctx(object):
                                             chunksize)
         t0 = last = time.time()
         for n, res in enumerate(it):
+            if _STOP["flag"] or (_STOP["deadline"] and time.time() > _STOP["deadline"]):
+                raise Interrupted("stopped after %d of %d tasks of this stage (%s)"
+                                  % (n, len(tasks), "SIGTERM" if _STOP["flag"] else "VERIF_BUDGET_S used up"))
             if os.environ.get("VERIF_PROGRESS") and time.time() - last > 30:
                 last = time.time()
                 sys.stderr.write("[progress] %d/%d tasks %.0fs violations=%d %s\n"
@@ -404,8 +420,21 @@ def main(argv=None):
         print(json.dumps(res, indent=1, default=repr))
         return 0 if res.get("ok") else 1
     ctx = Ctx(pid, mod.LEVEL, args.tier, seed)
+    import signal
+    signal.signal(signal.SIGTERM, _on_sigterm)
+    if os.environ.get("VERIF_BUDGET_S"):
+        _STOP["deadline"] = time.time() + float(os.environ["VERIF_BUDGET_S"])
     try:
         mod.run(ctx)
+        return finish(ctx, mod)
+    except Interrupted as e:
+        try:
+            if ctx._pool is not None:
+                ctx._pool.terminate()
+                ctx._pool = None
+        except Exception:
+            pass
+        ctx.cap("interrupted: %s; counts cover the completed tasks only" % e)
         return finish(ctx, mod)
     except HarnessError as e:
         ctx.close()
